@@ -451,9 +451,10 @@ class SCCReader(BaseReader):
             self.roll_rows = []
             self.time = self.time_translator.get_time()
 
-        # clear pop_on buffer
+        # clear pop_on buffer [Erase Non-displayed Memory]; the roll-up and
+        # paint-on text is in displayed memory and is not touched
         elif word == "94ae":
-            self.buffer = self.node_creator_factory.new_creator()
+            self.buffer_dict["pop"] = self.node_creator_factory.new_creator()
 
         # display pop_on buffer [End Of Caption]
         elif word == "942f":
